@@ -130,3 +130,20 @@ func Harness_C07_field_sensitive_pipeline_terminates() {
 		verifReach("flow-reported-with-field-sensitivity")
 	}
 }
+
+// two closures in sequence (by-value binding / captured cell, in either order), pointer or string data, written in
+// main (no calling context) or with the second one inside a callee: the shape of D16, at the quick tier
+func Harness_C01_closure_chain() {
+	closures := []int{}
+	for t := 0; t < df.VerifNumTransports; t++ {
+		if df.VerifClosureTransport(t) {
+			closures = append(closures, t)
+		}
+	}
+	t1 := closures[verifPick("t1", 0, len(closures)-1)]
+	t2 := closures[verifPick("t2", 0, len(closures)-1)]
+	split := verifPick("split", 1, 2)
+	stringData := verifPick("string-data", 0, 1) == 1
+	w := df.VerifBuildDirectFlow([]int{t1, t2}, []int{0, 1}, split, 0, stringData)
+	verifAssert("explicit-source-to-sink-flow-is-reported", c01ProgReported(w, c01ProgConfig(false, false)))
+}
